@@ -503,6 +503,10 @@ class Gen:
         if r.random() < (0.1 if self.hostile else 0.05):
             self.feats.add("list-first-child-list")
             items[0] = [self.list_(depth + 1, "item")] if depth < 2 else items[0]
+            if depth < 2 and r.random() < 0.3:
+                # ... of nothing but empty items (no block inside ever resets what the opening list set up)
+                items[0][0]["items"] = [[] for _ in items[0][0]["items"]]
+                self.feats.add("list-first-child-list-of-empty-items")
         if any(len(b) > 1 and any(x["t"] != "list" for x in b[1:]) for b in items):
             tight = False
         self.feats.add("tight" if tight else "loose")
